@@ -366,7 +366,15 @@ pub struct Totals {
 /// the exploration shared by C06 and C08; violations are routed by `route` to the run
 pub fn explore(run: &mut Run, tier: Tier, prop: &str) -> Totals {
     let mut tot = Totals { states: 0, transitions: 0, terminal: 0, exhausted: true };
-    let caps = Caps { max_wall_s: tier.pick(150.0, 2400.0), max_states: tier.pick(3_000_000, 30_000_000), ..Caps::default() };
+    // C06 and C08 perform the same exploration; each records only its own violations, so that a defect the other
+    // one owns does not use up the violation cap and cut this one's exploration short
+    fn is_c08(m: &str) -> bool {
+        m.contains("[C08]")
+    }
+    fn is_not_c08(m: &str) -> bool {
+        !m.contains("[C08]")
+    }
+    let caps = Caps { max_wall_s: tier.pick(150.0, 2400.0), max_states: tier.pick(3_000_000, 30_000_000), not_mine: Some(if prop == "C08" { is_not_c08 } else { is_c08 }), ..Caps::default() };
     let mut systems: Vec<DriveSys> = vec![];
     for s in frames(tier) {
         let big = s.frame.len() > 20_000;
